@@ -24,7 +24,8 @@ Record flat_struct (s : struct) : Prop := {
   fs_names : NoDup (map f_name (struct_fields_nc s));
   fs_no_size_member : forall f, In f (struct_fields_nc s) -> f_name f <> "size";
   fs_ordered : ordered tm (struct_fields_nc s) [] [] (struct_fields_nc s);
-  fs_fixed : exists f, In f (struct_fields_nc s) /\ pos_member tm (struct_fields_nc s) f
+  fs_fixed : exists f, In f (struct_fields_nc s) /\ pos_member tm (struct_fields_nc s) f;
+  fs_closed : forall f, In f (struct_fields_nc s) -> ~ fill_member tm (struct_fields_nc s) f
 }.
 
 (* a concrete struct with an abstract parent that carries the @size member first (Symbol transactions, blocks, receipts):
@@ -46,7 +47,8 @@ Record based_struct (s a : struct) (f0 : field) (i : intty) (hrest : list field)
   bs_f0_plain : is_reserved f0 = false;
   bs_f0_settable : is_settable (struct_fields_nc s) f0 = true;
   bs_ordered_h : ordered tm (struct_fields_nc s) [] ["size"] hrest;
-  bs_ordered_o : ordered tm (struct_fields_nc s) hrest [] (own_fields tm s)
+  bs_ordered_o : ordered tm (struct_fields_nc s) hrest [] (own_fields tm s);
+  bs_closed_h : forall f, In f hrest -> ~ fill_member tm (struct_fields_nc s) f
 }.
 
 (* a concrete struct with an abstract parent that has NO @size member (NEM transactions): the parent's _deserialize reads its members
@@ -63,7 +65,8 @@ Record based_nosize_struct (s a : struct) (hfs : list field) : Prop := {
   bn_no_size_member : forall f, In f (struct_fields_nc s) -> f_name f <> "size";
   bn_ordered_h : ordered tm (struct_fields_nc s) [] [] hfs;
   bn_ordered_o : ordered tm (struct_fields_nc s) hfs [] (own_fields tm s);
-  bn_fixed : exists f, In f (struct_fields_nc s) /\ pos_member tm (struct_fields_nc s) f
+  bn_fixed : exists f, In f (struct_fields_nc s) /\ pos_member tm (struct_fields_nc s) f;
+  bn_closed : forall f, In f (struct_fields_nc s) -> ~ fill_member tm (struct_fields_nc s) f
 }.
 
 Definition struct_ok (s : struct) : Prop :=
@@ -72,6 +75,69 @@ Definition struct_ok (s : struct) : Prop :=
 Lemma struct_ok_concrete s : struct_ok s -> s_disp s <> SdAbstract.
 Proof. intros [H|[(a & f0 & i & hrest & H)|(a & hfs & H)]]; now destruct H. Qed.
 
+(* ---- TFactory.deserialize: the pieces of `decf` as top-level definitions ---- *)
+Definition names_of (da : attribute) : list string := flat_map (fun x => match x with AvStr n => [n] | _ => [] end) (at_values da).
+Definition disc_names (a : struct) : list string :=
+  match find_attr (s_attrs a) "discriminator" with Some da => names_of da | None => [] end.
+Definition fchildren (t : string) : list decl :=
+  filter (fun d => match d with DStruct c => match s_factory_type c with Some f => String.eqb f t | None => false end | _ => false end) tm.
+Definition key_of (names : list string) (c : struct) : list (option value) :=
+  map (fun n =>
+    match find (fun at_ => String.eqb (at_name at_) "initializes"
+                           && match at_values at_ with AvStr tn :: _ => String.eqb tn n | _ => false end)
+               (match s_attrs c with Some l => l | None => [] end) with
+    | Some ia =>
+      match at_values ia with
+      | _ :: AvStr cn :: _ =>
+        match find_field (s_fields c) cn with
+        | Some cf =>
+          match f_type cf, f_value cf with
+          | FInt _, VNum z => Some (VInt z)
+          | FName et, VName vn => match lookup tm et with Some (DEnum _ _ vs _ _) => option_map VInt (enum_const vs vn) | _ => None end
+          | _, _ => None
+          end
+        | None => None
+        end
+      | _ => None
+      end
+    | None => None
+    end) names.
+Definition veq (x y : option value) : bool := match x, y with Some (VInt p), Some (VInt q) => p =? q | _, _ => false end.
+Fixpoint keys_eq (x y : list (option value)) : bool :=
+  match x, y with [], [] => true | p :: x', q :: y' => veq p q && keys_eq x' y' | _, _ => false end.
+Definition factory_pick (t : string) (names : list string) (actual : list (option value)) : option decl :=
+  find (fun d => match d with DStruct c => keys_eq (key_of names c) actual | _ => false end) (rev (fchildren t)).
+
+Lemma decf_S k1 t buf : decf OP tm (S (S k1)) t buf =
+  match lookup_struct tm t with
+  | Some a =>
+    bind (dec_header_with OP tm (Rk k1) a (struct_fields_nc a) buf) (fun h =>
+    let '(e0, _, _) := h in
+    match find_attr (s_attrs a) "discriminator" with
+    | Some da =>
+      match factory_pick t (names_of da) (map (fun n => eget e0 n) (names_of da)) with
+      | Some (DStruct c) => dec_struct OP tm (S k1) c buf
+      | _ => Crash "KeyError"
+      end
+    | None => Crash "KeyError"
+    end)
+  | None => Crash "NameError"
+  end.
+Proof. reflexivity. Qed.
+
+(* a concrete child s of the abstract struct named t: the factory reads the parent header with the parent's own member list
+   (same result as with the child's), the discriminator members are plain members of the header *)
+Record factory_ok (t : string) (a s : struct) : Prop := {
+  fo_parent : lookup_struct tm t = Some a;
+  fo_abs : s_disp a = SdAbstract;
+  fo_ft : s_factory_type s = Some t;
+  fo_hdr : forall f, In f (struct_fields_nc a) ->
+           f_cond f = None /\ size_fields_of (struct_fields_nc a) f = size_fields_of (struct_fields_nc s) f;
+  fo_disc : find_attr (s_attrs a) "discriminator" <> None;
+  fo_names : forall n, In n (disc_names a) -> n <> "size" /\ exists f, In f (struct_fields_nc a) /\ f_name f = n /\
+             ((exists i, classify tm (struct_fields_nc s) f = Some (MkInt i)) \/ (exists t', classify tm (struct_fields_nc s) f = Some (MkNamed t')))
+}.
+
 (* the members a value must type: all of them, except the leading @size member of a struct whose parent has one (it is not part of the value) *)
 Definition typed_members (s : struct) : list field :=
   match base_struct tm s with
@@ -79,8 +145,9 @@ Definition typed_members (s : struct) : list field :=
   | None => struct_fields_nc s
   end.
 
-(* admissible values, by struct nesting depth *)
-Fixpoint adm (n : nat) (t : string) (v : value) : Prop :=
+(* admissible values of static type t, by struct nesting depth; a struct value is admissible at its own class and, through the factory,
+   at the abstract parent of its class *)
+Fixpoint admf (n : nat) (t : string) (v : value) : Prop :=
   match v with
   | VInt z =>
     match lookup tm t with
@@ -97,24 +164,19 @@ Fixpoint adm (n : nat) (t : string) (v : value) : Prop :=
     match n with
     | O => False
     | S n' =>
-      t = cls /\
       match lookup_struct tm cls with
       | Some s =>
         s_name s = cls /\ struct_ok s /\ map fst vs = map f_name (settable_fields s) /\
-        forall f, In f (typed_members s) -> member_typed tm (struct_fields_nc s) (adm n') v f
+        (forall f, In f (typed_members s) -> member_typed tm (struct_fields_nc s) (admf n') v f) /\
+        (t = cls \/ exists a, factory_ok t a s /\ factory_pick t (disc_names a) (map (fun n => vget v n) (disc_names a)) = Some (DStruct s))
       | None => False
       end
     end
   | _ => False
   end.
 
-Lemma adm_not_abs n t v : adm n t v -> is_abs tm t = false.
-Proof.
-  unfold is_abs, lookup_struct. destruct v as [z|b|l|cls vs|]; destruct n; cbn [adm]; try contradiction.
-  1-4: destruct (lookup tm t) as [[? [?|?] ?|? ? ? ? ?|?]|]; intros H; try contradiction; reflexivity.
-  intros (-> & H). unfold lookup_struct in H. destruct (lookup tm cls) as [[| |s]|]; try contradiction.
-  destruct H as (_ & Hok & _). pose proof (struct_ok_concrete s Hok). destruct (s_disp s); try reflexivity; congruence.
-Qed.
+(* values whose static type is their own (concrete) type: what T.deserialize decodes *)
+Definition adm (n : nat) (t : string) (v : value) : Prop := admf n t v /\ is_abs tm t = false.
 
 Lemma own_fields_no_base s : s_factory_type s = None -> own_fields tm s = struct_fields_nc s.
 Proof.
@@ -222,18 +284,30 @@ Lemma dec_struct_S_base k s a buf : s_disp s <> SdAbstract -> base_struct tm s =
   Ok (VStruct (s_name s) (collect s (fst r))))).
 Proof. intros Hd Hb. cbn [dec_struct]. rewrite Hb. destruct (s_disp s); try reflexivity. contradiction. Qed.
 
+(* struct values: encoding and size follow the dynamic class, not the static type *)
+Lemma enc_static_irrel k t cls vs : enc OP tm (S k) t (VStruct cls vs) = enc OP tm (S k) cls (VStruct cls vs).
+Proof. reflexivity. Qed.
+Lemma size_static_irrel k t cls vs : size OP tm (S k) t (VStruct cls vs) = size OP tm (S k) cls (VStruct cls vs).
+Proof. reflexivity. Qed.
+
 (* the round trip: at nesting depth n every fuel >= 2n + 1 suffices *)
 Definition RT1 (k : nat) (t : string) (v : value) : Prop :=
   (forall b rest, enc OP tm k t v = Ok b ->
-     dec OP tm k t (b ++ rest) = Ok v /\ size OP tm k t v = Ok (Z.of_nat (length b)) /\ (0 < length b)%nat) /\
+     dec_any tm (Rk k) t (b ++ rest) = Ok v /\ size OP tm k t v = Ok (Z.of_nat (length b)) /\ (0 < length b)%nat) /\
   (forall sz, size OP tm k t v = Ok sz -> 0 < sz).
-Definition RT (n : nat) : Prop := forall k, (2 * n + 1 <= k)%nat -> forall t v, adm n t v -> RT1 k t v.
+Definition RT (n : nat) : Prop := forall k, (2 * n + 1 <= k)%nat -> forall t v, admf n t v -> RT1 k t v.
 
-Lemma RT_leaf k t v : (1 <= k)%nat -> match v with VInt _ | VBytes _ => True | _ => False end -> adm 0 t v -> RT1 k t v.
+Lemma admf_leaf_not_abs t v : match v with VInt _ | VBytes _ => True | _ => False end -> admf 0 t v -> is_abs tm t = false.
+Proof.
+  unfold is_abs, lookup_struct. destruct v as [z|b|l|cls vs|]; cbn [admf]; try contradiction; intros _.
+  all: destruct (lookup tm t) as [[? [?|?] ?|? ? ? ? ?|?]|]; intros H; try contradiction; reflexivity.
+Qed.
+
+Lemma RT_leaf k t v : (1 <= k)%nat -> match v with VInt _ | VBytes _ => True | _ => False end -> admf 0 t v -> RT1 k t v.
 Proof.
   intros Hk Hleaf Hadm. destruct k as [|k]; [lia|]. split.
-  - intros b rest Henc.
-    destruct v as [z|bs| | |]; try contradiction; cbn [adm] in Hadm; cbn [enc] in Henc; cbn [dec size].
+  - intros b rest Henc. unfold dec_any. rewrite (admf_leaf_not_abs t v Hleaf Hadm). cbn [Rk dec_t].
+    destruct v as [z|bs| | |]; try contradiction; cbn [admf] in Hadm; cbn [enc] in Henc; cbn [dec size].
     + destruct (lookup tm t) as [[n [i|bn] c|n bi vs at_ c|s]|] eqn:Hl; try contradiction.
       * destruct Hadm as [Hpos Hu]. rewrite Hu in *. cbn [negb] in *.
         destruct (py_int_roundtrip _ _ _ _ rest Henc) as [Hx Hlen]. rewrite Hx.
@@ -247,13 +321,52 @@ Proof.
       destruct Hadm as [Hpos Hlen]. injection Henc as <-. unfold get_bytes, OP. rewrite get_bytes_bad_now, app_length.
       replace (Z.of_nat (length bs + length rest) <? bn) with false by lia. cbn [bind].
       rewrite <- Hlen, zfirstn_app. repeat split; lia.
-  - intros sz Hsz. destruct v as [z|bs| | |]; try contradiction; cbn [adm] in Hadm; cbn [size] in Hsz.
+  - intros sz Hsz. destruct v as [z|bs| | |]; try contradiction; cbn [admf] in Hadm; cbn [size] in Hsz.
     + destruct (lookup tm t) as [[n [i|bn] c|n bi vs at_ c|s]|] eqn:Hl; try contradiction; injection Hsz as <-; tauto.
     + destruct (lookup tm t) as [[n [i|bn] c|n bi vs at_ c|s]|] eqn:Hl; try contradiction. injection Hsz as <-. tauto.
 Qed.
 
-Lemma adm_leaf_any n t v : match v with VInt _ | VBytes _ => True | _ => False end -> adm n t v -> adm 0 t v.
+Lemma admf_leaf_any n t v : match v with VInt _ | VBytes _ => True | _ => False end -> admf n t v -> admf 0 t v.
 Proof. destruct v; try contradiction; intros _ H; destruct n; exact H. Qed.
+
+(* the factory reads the parent header with the parent's own member list: same result as with the child's *)
+Lemma des_loop_allfs_ext R sx allfs1 allfs2 : forall fs proc e buf,
+  (forall f, In f fs -> f_cond f = None /\ size_fields_of allfs1 f = size_fields_of allfs2 f) ->
+  deserialize_loop OP tm R sx allfs1 fs proc [] [] e buf = deserialize_loop OP tm R sx allfs2 fs proc [] [] e buf.
+Proof.
+  induction fs as [|f r IH]; intros proc e buf H; [reflexivity|].
+  destruct (H f (or_introl eq_refl)) as [Hc Hsf]. cbn [deserialize_loop]. rewrite Hc.
+  assert (Hd : deserialize_field OP tm R sx allfs1 e f buf = deserialize_field OP tm R sx allfs2 e f buf).
+  { unfold deserialize_field, cond_local. rewrite Hc. cbn [bind]. f_equal. unfold load_field. destruct (f_type f); [reflexivity| |reflexivity]. now rewrite Hsf. }
+  rewrite Hd. destruct (deserialize_field OP tm R sx allfs2 e f buf) as [x| |]; cbn [bind find drain_queue]; [|reflexivity|reflexivity].
+  apply IH. intros g Hg. apply H. now right.
+Qed.
+
+Lemma dec_header_allfs_ext R a allfs1 allfs2 buf :
+  (forall f, In f (struct_fields_nc a) -> f_cond f = None /\ size_fields_of allfs1 f = size_fields_of allfs2 f) ->
+  dec_header_with OP tm R a allfs1 buf = dec_header_with OP tm R a allfs2 buf.
+Proof. intros H. unfold dec_header_with. now rewrite (des_loop_allfs_ext R a allfs1 allfs2 _ [] [] buf H). Qed.
+
+Lemma veq_eq x y : veq x y = true -> x = y.
+Proof. unfold veq. destruct x as [[p| | | |]|], y as [[q| | | |]|]; try discriminate. intros H. do 2 f_equal. lia. Qed.
+
+Lemma decf_via_dec k' t a s cls self buf e1 ws we hfields :
+  factory_ok t a s -> lookup tm cls = Some (DStruct s) ->
+  dec_header_with OP tm (Rk k') a (struct_fields_nc s) buf = Ok (e1, ws, we) ->
+  env_ok OP tm (Rk k') (struct_fields_nc s) hfields e1 self ->
+  (forall f, In f (struct_fields_nc a) -> f_name f <> "size" -> In f hfields) ->
+  factory_pick t (disc_names a) (map (fun n => vget self n) (disc_names a)) = Some (DStruct s) ->
+  decf OP tm (S (S k')) t buf = dec OP tm (S (S k')) cls buf.
+Proof.
+  intros [Hpar Habs Hft Hhdr Hdisc Hnames] Hlk Hh Henv Hcov Hpick.
+  rewrite decf_S, Hpar, (dec_header_allfs_ext (Rk k') a (struct_fields_nc a) (struct_fields_nc s) buf Hhdr), Hh. cbn [bind].
+  unfold disc_names in Hnames, Hpick. destruct (find_attr (s_attrs a) "discriminator") as [da|]; [|contradiction].
+  assert (Hact : map (fun n => eget e1 n) (names_of da) = map (fun n => vget self n) (names_of da)).
+  { apply map_ext_in. intros n Hn. destruct (Hnames n Hn) as (Hns & f & Hf & Hfn & Hk).
+    pose proof (Henv f (Hcov f Hf ltac:(now rewrite Hfn))) as He. unfold env_entry in He.
+    destruct Hk as [(i & Hk)|(t' & Hk)]; rewrite Hk, Hfn in He; exact He. }
+  rewrite Hact, Hpick. symmetry. now apply dec_struct_type.
+Qed.
 
 Lemma nodup_app_l {A} (l1 l2 : list A) : NoDup (l1 ++ l2) -> NoDup l1.
 Proof. induction l1 as [|x l1 IH]; intros H; [constructor|]. cbn in H. inversion H as [|? ? Hn Hd]; subst. constructor; [|now apply IH]. intros Hx. apply Hn. apply in_or_app. now left. Qed.
@@ -264,7 +377,7 @@ Lemma collect_ok R s cls vs (adm_t : string -> value -> Prop) e (covered : list 
   map fst vs = map f_name (settable_fields s) ->
   (forall f, In f (settable_fields s) -> In f covered) ->
   (forall f, In f (settable_fields s) -> member_typed tm (struct_fields_nc s) adm_t (VStruct cls vs) f) ->
-  env_ok tm R (struct_fields_nc s) covered e (VStruct cls vs) ->
+  env_ok OP tm R (struct_fields_nc s) covered e (VStruct cls vs) ->
   collect s e = vs.
 Proof.
   intros Hnd Hvs Hcov Hty Henv. unfold collect.
@@ -273,7 +386,7 @@ Proof.
   rewrite Hvs, map_map. apply map_ext_in. intros f Hf. f_equal.
   pose proof (Hty f Hf) as Htf.
   pose proof (Henv f (Hcov f Hf)) as He.
-  destruct (settable_env_entry tm R (struct_fields_nc s) adm_t (VStruct cls vs) f (proj2 (settable_filter s f Hf)) Htf) as [Hee [v Hv]].
+  destruct (settable_env_entry OP tm R (struct_fields_nc s) adm_t (VStruct cls vs) f (proj2 (settable_filter s f Hf)) Htf) as [Hee [v Hv]].
   rewrite Hee in He. rewrite eget_as_find in He. rewrite vget_as_find in He, Hv.
   destruct (find (fun p => String.eqb (fst p) (f_name f)) e) as [p|], (find (fun p => String.eqb (fst p) (f_name f)) vs) as [q|]; cbn in He, Hv; congruence.
 Qed.
@@ -281,31 +394,31 @@ Qed.
 Section OneLevel.
 Variable n : nat.
 Variable k' : nat.
-Hypothesis Hsub : forall t' v' b' rest', adm n t' v' -> enc_t (Rk k') t' v' = Ok b' ->
+Hypothesis Hsub : forall t' v' b' rest', admf n t' v' -> enc_t (Rk k') t' v' = Ok b' ->
   dec_any tm (Rk k') t' (b' ++ rest') = Ok v' /\ size_t (Rk k') t' v' = Ok (Z.of_nat (length b')) /\ (0 < length b')%nat.
-Hypothesis Hpos : forall t' v' sz, adm n t' v' -> size_t (Rk k') t' v' = Ok sz -> 0 < sz.
+Hypothesis Hpos : forall t' v' sz, admf n t' v' -> size_t (Rk k') t' v' = Ok sz -> 0 < sz.
 
-Notation loop_rt' := (fun sx allfs => loop_rt OP tm (Rk k') sx allfs size_bad_now order_same_now get_bytes_bad_now (adm n) Hsub Hpos).
-Notation size_ok' := (fun sx allfs => size_fields_ok OP tm (Rk k') sx allfs (adm n) Hsub Hpos).
-Notation size_nonneg' := (fun allfs => size_fields_nonneg OP tm (Rk k') allfs (adm n) Hpos).
+Notation loop_rt' := (fun sx allfs => loop_rt OP tm (Rk k') sx allfs size_bad_now order_same_now get_bytes_bad_now size_bad_v_now rv_is_last_now rv_overrun_now align_now (admf n) Hsub Hpos).
+Notation size_ok' := (fun sx allfs => size_fields_ok OP tm (Rk k') sx allfs align_now (admf n) Hsub Hpos).
+Notation size_nonneg' := (fun allfs => size_fields_nonneg OP tm (Rk k') allfs align_now (admf n) Hpos).
 
 Lemma struct_rt_flat cls vs s b rest :
   lookup_struct tm cls = Some s -> s_name s = cls -> flat_struct s -> map fst vs = map f_name (settable_fields s) ->
-  (forall f, In f (struct_fields_nc s) -> member_typed tm (struct_fields_nc s) (adm n) (VStruct cls vs) f) ->
+  (forall f, In f (struct_fields_nc s) -> member_typed tm (struct_fields_nc s) (admf n) (VStruct cls vs) f) ->
   enc OP tm (S (S k')) cls (VStruct cls vs) = Ok b ->
   dec OP tm (S (S k')) cls (b ++ rest) = Ok (VStruct cls vs) /\ size OP tm (S (S k')) cls (VStruct cls vs) = Ok (Z.of_nat (length b)).
 Proof.
-  intros Hls Hname Hflat Hvs Hty Henc. destruct Hflat as [Hlk Hnb Hns Hconc Hnd Hnosz Hord Hfix].
+  intros Hls Hname Hflat Hvs Hty Henc. destruct Hflat as [Hlk Hnb Hns Hconc Hnd Hnosz Hord Hfix Hclosed].
   rewrite enc_struct_value, Hls, enc_struct_S in Henc.
   rewrite (base_none s Hnb), (own_fields_no_base s Hnb) in Henc.
   destruct (size_struct_with OP tm (Rk k') s (VStruct cls vs)) as [total| |] eqn:Hsz; cbn [bind] in Henc; try discriminate.
   set (self := VStruct cls vs) in *. set (allfs := struct_fields_nc s) in *.
   assert (Hnsm : forall f, In f allfs -> not_size_member s f) by (intros f _; unfold not_size_member; now rewrite Hns).
   rewrite (ser_fields_first OP tm (Rk k') s allfs total self allfs Hnsm) in Henc.
-  destruct (loop_rt' s allfs allfs [] [] [] self total b rest Hnsm Hord Hnd (fun f Hf => match Hf with end) Hty Henc) as (e' & Hloop & Henv & _).
+  destruct (loop_rt' s allfs allfs [] [] [] self total b rest Hnsm Hord Hnd (fun f Hf => match Hf with end) Hty (or_intror Hclosed) Henc) as (e' & Hloop & Henv & _).
   pose proof (size_ok' s allfs allfs self total b Hty Henc) as Hsize.
   assert (Hcollect : collect s e' = vs).
-  { apply (collect_ok (Rk k') s cls vs (adm n) e' allfs Hnd Hvs (settable_sub s) (fun f Hf => Hty f (settable_sub s f Hf))). exact Henv. }
+  { apply (collect_ok (Rk k') s cls vs (admf n) e' allfs Hnd Hvs (settable_sub s) (fun f Hf => Hty f (settable_sub s f Hf))). exact Henv. }
   split.
   - rewrite (dec_struct_type (S k') cls s (b ++ rest)) by (rewrite <- Hname; exact Hlk).
     rewrite (dec_struct_S_no_base k' s (b ++ rest) Hconc (base_none s Hnb)), (own_fields_no_base s Hnb). fold allfs. rewrite Hloop. cbn [bind fst].
@@ -315,12 +428,14 @@ Qed.
 
 Lemma struct_rt_based cls vs s a f0 i hrest b rest :
   lookup_struct tm cls = Some s -> s_name s = cls -> based_struct s a f0 i hrest -> map fst vs = map f_name (settable_fields s) ->
-  (forall f, In f (hrest ++ own_fields tm s) -> member_typed tm (struct_fields_nc s) (adm n) (VStruct cls vs) f) ->
+  (forall f, In f (hrest ++ own_fields tm s) -> member_typed tm (struct_fields_nc s) (admf n) (VStruct cls vs) f) ->
   enc OP tm (S (S k')) cls (VStruct cls vs) = Ok b ->
-  dec OP tm (S (S k')) cls (b ++ rest) = Ok (VStruct cls vs) /\ size OP tm (S (S k')) cls (VStruct cls vs) = Ok (Z.of_nat (length b)).
+  dec OP tm (S (S k')) cls (b ++ rest) = Ok (VStruct cls vs) /\ size OP tm (S (S k')) cls (VStruct cls vs) = Ok (Z.of_nat (length b)) /\
+  exists e1 ws we, dec_header_with OP tm (Rk k') a (struct_fields_nc s) (b ++ rest) = Ok (e1, ws, we) /\
+                   env_ok OP tm (Rk k') (struct_fields_nc s) hrest e1 (VStruct cls vs).
 Proof.
   intros Hls Hname Hb Hvs Hty Henc.
-  destruct Hb as [Hlk Hbase Hconc Hall Hpar Hnd Hattr_a Hattr_s Hf0n Hf0t Hf0w Hf0u Hf0c Hf0r Hf0s Hord_h Hord_o].
+  destruct Hb as [Hlk Hbase Hconc Hall Hpar Hnd Hattr_a Hattr_s Hf0n Hf0t Hf0w Hf0u Hf0c Hf0r Hf0s Hord_h Hord_o Hclosed_h].
   rewrite enc_struct_value, Hls, enc_struct_S, Hbase in Henc.
   set (self := VStruct cls vs) in *. set (allfs := struct_fields_nc s) in *. set (own := own_fields tm s) in *.
   set (w := Z.to_nat (it_size i)).
@@ -362,7 +477,7 @@ Proof.
     rewrite Htotal, zfirstn_app, <- !app_assoc. apply skipn_app_exact. exact Hlenw. }
   destruct (loop_rt' a allfs hrest [] ["size"] [("size", VInt total)] self total hr ob Hnsm_h Hord_h
               ltac:(cbn [app]; rewrite map_app in Hnd'; exact (nodup_app_l _ _ Hnd'))
-              (fun f Hf => match Hf with end) (fun f Hf => Hty f (in_or_app _ _ _ (or_introl Hf))) Hhr) as (e1 & Hloop_h & Henv_h & Hkeep_h).
+              (fun f Hf => match Hf with end) (fun f Hf => Hty f (in_or_app _ _ _ (or_introl Hf))) (or_intror Hclosed_h) Hhr) as (e1 & Hloop_h & Henv_h & Hkeep_h).
   assert (Hsize_env : eget e1 "size" = Some (VInt total)).
   { rewrite Hkeep_h; [apply eget_cons_eq|]. intros Hin. apply Hsize_notin. rewrite Hf0n, map_app. apply in_or_app. now left. }
   assert (Hheader : dec_header_with OP tm (Rk k') a allfs (((szb ++ hr) ++ ob) ++ rest) = Ok (e1, total - Z.of_nat (length ob), total)).
@@ -370,14 +485,14 @@ Proof.
     rewrite (cond_local_none tm allfs [] f0 Hf0c). cbn [bind]. rewrite Hload0. cbn [bind fst snd find drain_queue]. rewrite Hf0n, Hloop_h. cbn [bind fst snd existsb].
     rewrite Hf0n, String.eqb_refl. cbn [orb]. now rewrite Hsize_env. }
   cbn [app] in Henv_h.
-  destruct (loop_rt' s allfs own hrest [] e1 self total ob [] Hnsm_o Hord_o Hnd' Henv_h (fun f Hf => Hty f (in_or_app _ _ _ (or_intror Hf))) Hob) as (e2 & Hloop_o & Henv_o & _).
+  destruct (loop_rt' s allfs own hrest [] e1 self total ob [] Hnsm_o Hord_o Hnd' Henv_h (fun f Hf => Hty f (in_or_app _ _ _ (or_intror Hf))) (or_introl eq_refl) Hob) as (e2 & Hloop_o & Henv_o & _).
   assert (Hsettable : forall f, In f (settable_fields s) -> In f (hrest ++ own)).
   { intros f Hf. unfold settable_fields in Hf. fold (struct_fields_nc s) in Hf. fold allfs in Hf.
     assert (Hfl : filter (is_settable allfs) allfs = f0 :: filter (is_settable allfs) (hrest ++ own)).
     { rewrite Hall at 2. cbn [filter]. now rewrite Hf0s. }
     rewrite Hfl in Hf. cbn [drop_first_size] in Hf. rewrite Hf0n, String.eqb_refl in Hf. apply filter_In in Hf. tauto. }
   assert (Hcollect : collect s e2 = vs).
-  { apply (collect_ok (Rk k') s cls vs (adm n) e2 (hrest ++ own)).
+  { apply (collect_ok (Rk k') s cls vs (admf n) e2 (hrest ++ own)).
     - fold allfs. rewrite Hall. cbn [map]. constructor; assumption.
     - exact Hvs.
     - exact Hsettable.
@@ -391,23 +506,26 @@ Proof.
         replace (total - Z.of_nat (length ob)) with (Z.of_nat (length (szb ++ hr))) by (rewrite Htotal, !app_length; lia).
         now rewrite zskipn_app. }
     rewrite Hloop_o. cbn [bind fst]. now rewrite Hcollect, Hname.
-  - unfold self. rewrite size_struct_value, Hls, size_struct_S. fold self. rewrite Hsz. f_equal. exact Htotal.
+  - split; [unfold self; rewrite size_struct_value, Hls, size_struct_S; fold self; rewrite Hsz; f_equal; exact Htotal|].
+    exists e1, (total - Z.of_nat (length ob)), total. split; [exact Hheader | exact Henv_h].
 Qed.
 
 Lemma struct_rt_nosize cls vs s a hfs b rest :
   lookup_struct tm cls = Some s -> s_name s = cls -> based_nosize_struct s a hfs -> map fst vs = map f_name (settable_fields s) ->
-  (forall f, In f (struct_fields_nc s) -> member_typed tm (struct_fields_nc s) (adm n) (VStruct cls vs) f) ->
+  (forall f, In f (struct_fields_nc s) -> member_typed tm (struct_fields_nc s) (admf n) (VStruct cls vs) f) ->
   enc OP tm (S (S k')) cls (VStruct cls vs) = Ok b ->
-  dec OP tm (S (S k')) cls (b ++ rest) = Ok (VStruct cls vs) /\ size OP tm (S (S k')) cls (VStruct cls vs) = Ok (Z.of_nat (length b)).
+  dec OP tm (S (S k')) cls (b ++ rest) = Ok (VStruct cls vs) /\ size OP tm (S (S k')) cls (VStruct cls vs) = Ok (Z.of_nat (length b)) /\
+  exists e1 ws we, dec_header_with OP tm (Rk k') a (struct_fields_nc s) (b ++ rest) = Ok (e1, ws, we) /\
+                   env_ok OP tm (Rk k') (struct_fields_nc s) hfs e1 (VStruct cls vs).
 Proof.
   intros Hls Hname Hb Hvs Hty Henc.
-  destruct Hb as [Hlk Hbase Hconc Hall Hpar Hnd Hattr_a Hattr_s Hnosz Hord_h Hord_o Hfix].
+  destruct Hb as [Hlk Hbase Hconc Hall Hpar Hnd Hattr_a Hattr_s Hnosz Hord_h Hord_o Hfix Hclosed].
   rewrite enc_struct_value, Hls, enc_struct_S, Hbase in Henc.
   set (self := VStruct cls vs) in *. set (allfs := struct_fields_nc s) in *. set (own := own_fields tm s) in *.
   rewrite Hpar in Henc.
   destruct (size_struct_with OP tm (Rk k') s self) as [total| |] eqn:Hsz; cbn [bind] in Henc; try discriminate.
-  assert (Hty_h : forall f, In f hfs -> member_typed tm allfs (adm n) self f) by (intros f Hf; apply Hty; rewrite Hall; apply in_or_app; now left).
-  assert (Hty_o : forall f, In f own -> member_typed tm allfs (adm n) self f) by (intros f Hf; apply Hty; rewrite Hall; apply in_or_app; now right).
+  assert (Hty_h : forall f, In f hfs -> member_typed tm allfs (admf n) self f) by (intros f Hf; apply Hty; rewrite Hall; apply in_or_app; now left).
+  assert (Hty_o : forall f, In f own -> member_typed tm allfs (admf n) self f) by (intros f Hf; apply Hty; rewrite Hall; apply in_or_app; now right).
   assert (Hnsm_h : forall f, In f hfs -> not_size_member a f) by (intros f _; unfold not_size_member; now rewrite Hattr_a).
   assert (Hnsm_o : forall f, In f own -> not_size_member s f) by (intros f _; unfold not_size_member; now rewrite Hattr_s).
   rewrite (ser_fields_first OP tm (Rk k') a allfs total self hfs Hnsm_h) in Henc.
@@ -420,11 +538,13 @@ Proof.
   assert (Htotal : total = Z.of_nat (length (hb ++ ob))).
   { rewrite size_struct_with_eq, Hbase in Hsz. fold allfs own in Hsz. rewrite Hpar, Hsize_h in Hsz. cbn [bind] in Hsz. rewrite Hsize_o in Hsz. cbn [bind] in Hsz.
     injection Hsz as <-. rewrite app_length. lia. }
+  assert (Hclosed_h : forall f, In f hfs -> ~ fill_member tm allfs f) by (intros f Hf; apply Hclosed; change (In f allfs); rewrite Hall; apply in_or_app; now left).
+  assert (Hclosed_o : forall f, In f own -> ~ fill_member tm allfs f) by (intros f Hf; apply Hclosed; change (In f allfs); rewrite Hall; apply in_or_app; now right).
   destruct (loop_rt' a allfs hfs [] [] [] self total hb (ob ++ rest) Hnsm_h Hord_h
               ltac:(cbn [app]; rewrite map_app in Hnd; exact (nodup_app_l _ _ Hnd))
-              (fun f Hf => match Hf with end) Hty_h Hhb) as (e1 & Hloop_h & Henv_h & _).
+              (fun f Hf => match Hf with end) Hty_h (or_intror Hclosed_h) Hhb) as (e1 & Hloop_h & Henv_h & _).
   cbn [app] in Henv_h.
-  destruct (loop_rt' s allfs own hfs [] e1 self total ob rest Hnsm_o Hord_o Hnd Henv_h Hty_o Hob) as (e2 & Hloop_o & Henv_o & _).
+  destruct (loop_rt' s allfs own hfs [] e1 self total ob rest Hnsm_o Hord_o Hnd Henv_h Hty_o (or_intror Hclosed_o) Hob) as (e2 & Hloop_o & Henv_o & _).
   assert (Hhas : existsb (fun f => String.eqb (f_name f) "size") hfs = false).
   { destruct (existsb (fun f => String.eqb (f_name f) "size") hfs) eqn:Hex; [|reflexivity]. exfalso.
     apply existsb_exists in Hex as (f & Hf & Heq). apply String.eqb_eq in Heq.
@@ -434,7 +554,7 @@ Proof.
   { unfold dec_header_with. rewrite Hpar, <- app_assoc, Hloop_h. cbn [bind fst snd]. now rewrite Hhas. }
   assert (Hnd_all : NoDup (map f_name allfs)) by (rewrite Hall; exact Hnd).
   assert (Hcollect : collect s e2 = vs).
-  { apply (collect_ok (Rk k') s cls vs (adm n) e2 (hfs ++ own) Hnd_all Hvs).
+  { apply (collect_ok (Rk k') s cls vs (admf n) e2 (hfs ++ own) Hnd_all Hvs).
     - intros f Hf. apply settable_sub in Hf. change (In f allfs) in Hf. now rewrite Hall in Hf.
     - intros f Hf. apply Hty, settable_sub, Hf.
     - exact Henv_o. }
@@ -446,23 +566,24 @@ Proof.
         replace (Z.of_nat (length (hb ++ ob ++ rest)) - Z.of_nat (length (ob ++ rest))) with (Z.of_nat (length hb)) by (rewrite !app_length; lia).
         now rewrite zskipn_app. }
     rewrite Hloop_o. cbn [bind fst]. now rewrite Hcollect, Hname.
-  - unfold self. rewrite size_struct_value, Hls, size_struct_S. fold self. rewrite Hsz. f_equal. exact Htotal.
+  - split; [unfold self; rewrite size_struct_value, Hls, size_struct_S; fold self; rewrite Hsz; f_equal; exact Htotal|].
+    eexists e1, _, _. split; [exact Hheader | exact Henv_h].
 Qed.
 
 (* the size of an admissible struct value is positive whenever it is defined *)
 Lemma struct_size_pos cls vs s sz :
   lookup_struct tm cls = Some s -> struct_ok s ->
-  (forall f, In f (typed_members s) -> member_typed tm (struct_fields_nc s) (adm n) (VStruct cls vs) f) ->
+  (forall f, In f (typed_members s) -> member_typed tm (struct_fields_nc s) (admf n) (VStruct cls vs) f) ->
   size OP tm (S (S k')) cls (VStruct cls vs) = Ok sz -> 0 < sz.
 Proof.
   intros Hls Hok Hty Hsz. rewrite size_struct_value, Hls, size_struct_S, size_struct_with_eq in Hsz. unfold typed_members in Hty.
   set (self := VStruct cls vs) in *. set (allfs := struct_fields_nc s) in *.
   destruct Hok as [Hflat|[(a & f0 & i & hrest & Hb)|(a & hfs & Hb)]].
-  - destruct Hflat as [Hlk Hnb Hns Hconc Hnd Hnosz Hord Hfix]. rewrite (base_none s Hnb) in Hsz, Hty. rewrite (own_fields_no_base s Hnb) in Hsz.
+  - destruct Hflat as [Hlk Hnb Hns Hconc Hnd Hnosz Hord Hfix Hclosed]. rewrite (base_none s Hnb) in Hsz, Hty. rewrite (own_fields_no_base s Hnb) in Hsz.
     exact (proj2 (size_nonneg' allfs allfs self sz Hty Hsz) Hfix).
-  - destruct Hb as [Hlk Hbase Hconc Hall Hpar Hnd Hattr_a Hattr_s Hf0n Hf0t Hf0w Hf0u Hf0c Hf0r Hf0s Hord_h Hord_o].
+  - destruct Hb as [Hlk Hbase Hconc Hall Hpar Hnd Hattr_a Hattr_s Hf0n Hf0t Hf0w Hf0u Hf0c Hf0r Hf0s Hord_h Hord_o Hclosed_h].
     rewrite Hbase in Hsz, Hty. rewrite Hattr_a in Hty. fold allfs in Hall. rewrite Hpar in Hsz.
-    assert (Hty' : forall f, In f (hrest ++ own_fields tm s) -> member_typed tm allfs (adm n) self f) by (intros f Hf; apply Hty; rewrite Hall; exact Hf).
+    assert (Hty' : forall f, In f (hrest ++ own_fields tm s) -> member_typed tm allfs (admf n) self f) by (intros f Hf; apply Hty; rewrite Hall; exact Hf).
     clear Hty. rename Hty' into Hty.
     cbn [size_fields] in Hsz. rewrite (cond_self_none tm (Rk k') allfs self f0 Hf0c) in Hsz. cbn [bind] in Hsz. unfold member_size in Hsz. rewrite Hf0t in Hsz. cbn [bind] in Hsz.
     destruct (size_fields OP tm (Rk k') allfs self hrest) as [x| |] eqn:Hx; cbn [bind] in Hsz; try discriminate.
@@ -470,9 +591,9 @@ Proof.
     injection Hsz as <-.
     pose proof (proj1 (size_nonneg' allfs hrest self x (fun f Hf => Hty f (in_or_app _ _ _ (or_introl Hf))) Hx)).
     pose proof (proj1 (size_nonneg' allfs (own_fields tm s) self y (fun f Hf => Hty f (in_or_app _ _ _ (or_intror Hf))) Hy)). lia.
-  - destruct Hb as [Hlk Hbase Hconc Hall Hpar Hnd Hattr_a Hattr_s Hnosz Hord_h Hord_o Hfix].
+  - destruct Hb as [Hlk Hbase Hconc Hall Hpar Hnd Hattr_a Hattr_s Hnosz Hord_h Hord_o Hfix Hclosed].
     rewrite Hbase in Hsz, Hty. rewrite Hattr_a in Hty. fold allfs in Hall. rewrite Hpar in Hsz.
-    assert (Hty' : forall f, In f allfs -> member_typed tm allfs (adm n) self f) by (intros f Hf; apply Hty; destruct allfs; exact Hf).
+    assert (Hty' : forall f, In f allfs -> member_typed tm allfs (admf n) self f) by (intros f Hf; apply Hty; destruct allfs; exact Hf).
     destruct (size_fields OP tm (Rk k') allfs self hfs) as [x| |] eqn:Hx; cbn [bind] in Hsz; try discriminate.
     destruct (size_fields OP tm (Rk k') allfs self (own_fields tm s)) as [y| |] eqn:Hy; cbn [bind] in Hsz; try discriminate.
     injection Hsz as <-.
@@ -490,31 +611,67 @@ Proof.
   induction n as [|n IH]; intros k Hk t v Hadm.
   - destruct v; try (cbn in Hadm; contradiction); (apply RT_leaf; [lia | exact I | exact Hadm]).
   - destruct v as [z|bs|l|cls vs|]; try (cbn in Hadm; contradiction).
-    + apply RT_leaf; [lia | exact I | eapply adm_leaf_any; [exact I | exact Hadm]].
-    + apply RT_leaf; [lia | exact I | eapply adm_leaf_any; [exact I | exact Hadm]].
-    + cbn [adm] in Hadm. destruct Hadm as (-> & Hadm). destruct (lookup_struct tm cls) as [s|] eqn:Hls; [|contradiction].
-      destruct Hadm as (Hname & Hok & Hvs & Hty).
+    + apply RT_leaf; [lia | exact I | eapply admf_leaf_any; [exact I | exact Hadm]].
+    + apply RT_leaf; [lia | exact I | eapply admf_leaf_any; [exact I | exact Hadm]].
+    + cbn [admf] in Hadm. destruct (lookup_struct tm cls) as [s|] eqn:Hls; [|contradiction].
+      destruct Hadm as (Hname & Hok & Hvs & Hty & Hstat).
       destruct k as [|[|k']]; try lia.
-      assert (Hsub : forall t' v' b' rest', adm n t' v' -> enc_t (Rk k') t' v' = Ok b' ->
+      assert (Hsub : forall t' v' b' rest', admf n t' v' -> enc_t (Rk k') t' v' = Ok b' ->
                  dec_any tm (Rk k') t' (b' ++ rest') = Ok v' /\ size_t (Rk k') t' v' = Ok (Z.of_nat (length b')) /\ (0 < length b')%nat).
-      { intros t' v' b' rest' Ha He. unfold dec_any. rewrite (adm_not_abs n t' v' Ha). cbn [Rk enc_t dec_t size_t] in *.
-        exact (proj1 (IH k' ltac:(lia) t' v' Ha) b' rest' He). }
-      assert (Hpos : forall t' v' sz, adm n t' v' -> size_t (Rk k') t' v' = Ok sz -> 0 < sz).
+      { intros t' v' b' rest' Ha He. cbn [Rk enc_t size_t] in *. exact (proj1 (IH k' ltac:(lia) t' v' Ha) b' rest' He). }
+      assert (Hpos : forall t' v' sz, admf n t' v' -> size_t (Rk k') t' v' = Ok sz -> 0 < sz).
       { intros t' v' sz Ha Hs. cbn [Rk size_t] in Hs. exact (proj2 (IH k' ltac:(lia) t' v' Ha) sz Hs). }
       pose proof (struct_size_pos n k' Hpos cls vs s) as Hsp.
+      assert (Hnabs : is_abs tm cls = false).
+      { unfold is_abs. rewrite Hls. pose proof (struct_ok_concrete s Hok). destruct (s_disp s); try reflexivity; congruence. }
       assert (Hrt : forall b rest, enc OP tm (S (S k')) cls (VStruct cls vs) = Ok b ->
-                dec OP tm (S (S k')) cls (b ++ rest) = Ok (VStruct cls vs) /\ size OP tm (S (S k')) cls (VStruct cls vs) = Ok (Z.of_nat (length b))).
+                dec_any tm (Rk (S (S k'))) t (b ++ rest) = Ok (VStruct cls vs) /\ size OP tm (S (S k')) cls (VStruct cls vs) = Ok (Z.of_nat (length b))).
       { intros b rest Henc. destruct Hok as [Hflat|[(a & f0 & i & hrest & Hbased)|(a & hfs & Hbn)]].
-        * refine (struct_rt_flat n k' Hsub Hpos cls vs s b rest Hls Hname Hflat Hvs _ Henc).
-          intros f Hf. apply Hty. unfold typed_members. now rewrite (base_none s (fs_no_base s Hflat)).
-        * refine (struct_rt_based n k' Hsub Hpos cls vs s a f0 i hrest b rest Hls Hname Hbased Hvs _ Henc).
-          intros f Hf. apply Hty. unfold typed_members. rewrite (bs_base _ _ _ _ _ Hbased), (bs_attr_a _ _ _ _ _ Hbased), (bs_all _ _ _ _ _ Hbased). exact Hf.
-        * refine (struct_rt_nosize n k' Hsub Hpos cls vs s a hfs b rest Hls Hname Hbn Hvs _ Henc).
-          intros f Hf. apply Hty. unfold typed_members. rewrite (bn_base _ _ _ Hbn), (bn_attr_a _ _ _ Hbn). exact Hf. }
+        * assert (Hty' : forall f, In f (struct_fields_nc s) -> member_typed tm (struct_fields_nc s) (admf n) (VStruct cls vs) f).
+          { intros f Hf. apply Hty. unfold typed_members. now rewrite (base_none s (fs_no_base s Hflat)). }
+          destruct (struct_rt_flat n k' Hsub Hpos cls vs s b rest Hls Hname Hflat Hvs Hty' Henc) as [Hd Hs]. split; [|exact Hs].
+          destruct Hstat as [->|(a & Hfo & _)]; [unfold dec_any; rewrite Hnabs; exact Hd|].
+          exfalso. pose proof (fs_no_base s Hflat) as H1. pose proof (fo_ft _ _ _ Hfo) as H2. congruence.
+        * assert (Hty' : forall f, In f (hrest ++ own_fields tm s) -> member_typed tm (struct_fields_nc s) (admf n) (VStruct cls vs) f).
+          { intros f Hf. apply Hty. unfold typed_members. rewrite (bs_base _ _ _ _ _ Hbased), (bs_attr_a _ _ _ _ _ Hbased), (bs_all _ _ _ _ _ Hbased). exact Hf. }
+          destruct (struct_rt_based n k' Hsub Hpos cls vs s a f0 i hrest b rest Hls Hname Hbased Hvs Hty' Henc) as (Hd & Hs & e1 & ws & we & Hh & Henv).
+          split; [|exact Hs].
+          destruct Hstat as [->|(a' & Hfo & Hpick)]; [unfold dec_any; rewrite Hnabs; exact Hd|].
+          assert (a' = a).
+          { pose proof (bs_base _ _ _ _ _ Hbased) as H1. unfold base_struct in H1. rewrite (fo_ft _ _ _ Hfo), (fo_parent _ _ _ Hfo) in H1. congruence. }
+          subst a'. unfold dec_any, is_abs. rewrite (fo_parent _ _ _ Hfo), (fo_abs _ _ _ Hfo). cbn [Rk decf_t].
+          rewrite (decf_via_dec k' t a s cls (VStruct cls vs) (b ++ rest) e1 ws we hrest Hfo ltac:(rewrite <- Hname; exact (bs_lookup _ _ _ _ _ Hbased)) Hh Henv); [exact Hd| |exact Hpick].
+          intros f Hf Hns. rewrite (bs_parent _ _ _ _ _ Hbased) in Hf. destruct Hf as [<-|Hf]; [|exact Hf].
+          exfalso. apply Hns. exact (bs_f0_name _ _ _ _ _ Hbased).
+        * assert (Hty' : forall f, In f (struct_fields_nc s) -> member_typed tm (struct_fields_nc s) (admf n) (VStruct cls vs) f).
+          { intros f Hf. apply Hty. unfold typed_members. rewrite (bn_base _ _ _ Hbn), (bn_attr_a _ _ _ Hbn). exact Hf. }
+          destruct (struct_rt_nosize n k' Hsub Hpos cls vs s a hfs b rest Hls Hname Hbn Hvs Hty' Henc) as (Hd & Hs & e1 & ws & we & Hh & Henv).
+          split; [|exact Hs].
+          destruct Hstat as [->|(a' & Hfo & Hpick)]; [unfold dec_any; rewrite Hnabs; exact Hd|].
+          assert (a' = a).
+          { pose proof (bn_base _ _ _ Hbn) as H1. unfold base_struct in H1. rewrite (fo_ft _ _ _ Hfo), (fo_parent _ _ _ Hfo) in H1. congruence. }
+          subst a'. unfold dec_any, is_abs. rewrite (fo_parent _ _ _ Hfo), (fo_abs _ _ _ Hfo). cbn [Rk decf_t].
+          rewrite (decf_via_dec k' t a s cls (VStruct cls vs) (b ++ rest) e1 ws we hfs Hfo ltac:(rewrite <- Hname; exact (bn_lookup _ _ _ Hbn)) Hh Henv); [exact Hd| |exact Hpick].
+          intros f Hf _. now rewrite (bn_parent _ _ _ Hbn) in Hf. }
       split.
-      * intros b rest Henc. destruct (Hrt b rest Henc) as [Hd Hs]. repeat split; [exact Hd | exact Hs|].
+      * intros b rest Henc. rewrite enc_static_irrel in Henc. rewrite size_static_irrel. destruct (Hrt b rest Henc) as [Hd Hs]. repeat split; [exact Hd | exact Hs|].
         pose proof (Hsp (Z.of_nat (length b)) Hls Hok Hty Hs). lia.
-      * intros sz Hs. exact (Hsp sz Hls Hok Hty Hs).
+      * intros sz Hs. rewrite size_static_irrel in Hs. exact (Hsp sz Hls Hok Hty Hs).
+Qed.
+
+(* corollaries in the two shapes the codecs have *)
+Theorem RT_dec : forall n k t v b rest, (2 * n + 1 <= k)%nat -> adm n t v -> enc OP tm k t v = Ok b ->
+  dec OP tm k t (b ++ rest) = Ok v /\ size OP tm k t v = Ok (Z.of_nat (length b)) /\ (0 < length b)%nat.
+Proof.
+  intros n k t v b rest Hk [Hadm Hna] Henc. pose proof (proj1 (RT_all n k Hk t v Hadm) b rest Henc) as H.
+  unfold dec_any in H. rewrite Hna in H. exact H.
+Qed.
+
+Theorem RT_decf : forall n k t v b rest, (2 * n + 1 <= k)%nat -> admf n t v -> is_abs tm t = true -> enc OP tm k t v = Ok b ->
+  decf OP tm k t (b ++ rest) = Ok v /\ size OP tm k t v = Ok (Z.of_nat (length b)) /\ (0 < length b)%nat.
+Proof.
+  intros n k t v b rest Hk Hadm Ha Henc. pose proof (proj1 (RT_all n k Hk t v Hadm) b rest Henc) as H.
+  unfold dec_any in H. rewrite Ha in H. exact H.
 Qed.
 
 End Flat.
